@@ -964,6 +964,86 @@ func init() {
 	}
 }
 
+// flagMixCases: see the call site.
+func flagMixCases() []RCaseR {
+	kinds := []Occ{{Flag: "D"}, {Flag: "w", Value: "/tmp/x"}, {Flag: "p", Value: "wa"}, {Flag: "k", Value: "mk"},
+		{Flag: "a", Value: "always,exit"}, {Flag: "A", Value: "never,exit"},
+		{Flag: "F", Value: "pid=1", LHS: "pid", Op: "=", RHS: "1"}, {Flag: "C", Value: "auid!=uid", LHS: "auid", Op: "!=", RHS: "uid"},
+		{Flag: "S", Value: "open"}}
+	mk := func(idx ...int) RCaseR {
+		c := RCaseR{Kind: "line", Note: "flag-mix"}
+		for _, i := range idx {
+			oc := kinds[i]
+			c.Occs = append(c.Occs, oc)
+			if oc.Flag == "D" {
+				c.Tokens = append(c.Tokens, "-D")
+			} else {
+				c.Tokens = append(c.Tokens, "-"+oc.Flag, oc.Value)
+			}
+		}
+		return c
+	}
+	var out []RCaseR
+	for i := range kinds {
+		out = append(out, mk(i))
+		for j := range kinds {
+			if j == i {
+				continue
+			}
+			out = append(out, mk(i, j))
+			for k := range kinds {
+				if k == i || k == j {
+					continue
+				}
+				out = append(out, mk(i, j, k))
+			}
+		}
+	}
+	return out
+}
+
+// operatorEdgeCases: see the call site.
+func operatorEdgeCases() []RCaseR {
+	var out []RCaseR
+	add := func(flag, value, lhs, op, rhs string) {
+		for _, av := range [][2]string{{"a", "always,exit"}, {"A", "never,exit"}} {
+			oc := Occ{Flag: flag, Value: value, LHS: lhs, Op: op, RHS: rhs}
+			out = append(out, RCaseR{Kind: "line", Note: "operator-edge",
+				Occs:   []Occ{{Flag: av[0], Value: av[1]}, oc},
+				Tokens: []string{"-" + av[0], av[1], "-" + flag, value}})
+		}
+	}
+	ops := []string{"=", "!=", "<", ">", "<=", ">=", "&", "&="}
+	for _, name := range []string{"auid", "key", "a0", "x"} {
+		// nothing after the name, the operator cut off, nothing after the operator: no intent (Op empty),
+		// the library must answer with an error or a rule that still reflects the whole value
+		for _, tail := range []string{"", "!", " !", "! ", "!x", "! =1", "<", ">", "&", "=", "!=", "<=", ">=", "&=", " ", " =", " = ", "==", "=!", "!!", "!=!", "<>", "=<"} {
+			add("F", name+tail, "", "", "")
+			add("C", name+tail, "", "", "")
+		}
+		for _, op := range ops {
+			// blanks and odd bytes right after the operator belong to the value
+			for _, v := range []string{" 5", "  padded value", "\t7", "\nx", " ", "=5", "!5", "5 ", "5\n", "\x005"} {
+				rhs := v
+				o := op
+				// "<" / ">" / "&" directly followed by "=" read as the two-character operator
+				if (op == "<" || op == ">" || op == "&") && strings.HasPrefix(v, "=") {
+					o, rhs = op+"=", v[1:]
+				}
+				if rhs == "" {
+					continue
+				}
+				add("F", name+op+v, name, o, rhs)
+				add("F", name+"  "+op+v, name, o, rhs)
+			}
+		}
+	}
+	for _, v := range []string{"auid!=uid ", "auid != uid", "auid!= uid", " auid!=uid", "auid!=uid=1", "auid=!uid", "auid!uid", "auid==uid", "auid=", "=uid", "auid  =uid"} {
+		add("C", v, "", "", "")
+	}
+	return out
+}
+
 // degenerateStructCases: see the call site.
 func degenerateStructCases() []RCaseR {
 	hs := func(s string) string { return common.HexS(s) }
@@ -1634,6 +1714,17 @@ func ruleFamily(ctx *Ctx) error {
 	// filters, and the near misses of the shape (other list/action, a syscall, a fourth filter, another operator)
 	for _, c := range watchShapeCases() {
 		run(c, "watch-shape")
+	}
+	// flag kinds mixed, systematically: every ordered pair and triple of flag kinds (delete / watch /
+	// syscall-rule flags with and without -a), and -F / -C values around the operator (cut off inside
+	// the operator, blanks on either side, nothing before or after it)
+	if ctx.Prop == "C13" || ctx.Prop == "C14" {
+		for _, c := range flagMixCases() {
+			run(c, "flag-mix")
+		}
+		for _, c := range operatorEdgeCases() {
+			run(c, "operator-edge")
+		}
 	}
 	// Rule structs with degenerate filter parts, systematically (Build takes any Rule value, not only what
 	// flags.Parse produces): every field name with an empty / sign-only / blank value, and empty names and operators
